@@ -71,9 +71,19 @@ func pickSize(r *Rng, lim GenLimits) int {
 	}
 }
 
+// forceKeyKind >= 0 makes genKeys use that family (set and reset by callers
+// that need a particular shape).
+var forceKeyKind = -1
+
 func genKeys(r *Rng, lim GenLimits) ([][]byte, string) {
 	n := pickSize(r, lim)
 	kind := r.Intn(12)
+	if forceKeyKind >= 0 {
+		kind = forceKeyKind
+		if n < 800 && lim.MaxKeys >= 800 {
+			n = r.Range(800, lim.MaxKeys)
+		}
+	}
 	if n > 20000 && (kind == 4 || kind == 9 || kind == 10) {
 		// long-key families: bound the total key volume (a 10^5-key set with
 		// 400-byte shared runs costs billions of steps per build and starves
@@ -218,8 +228,11 @@ func genKeys(r *Rng, lim GenLimits) ([][]byte, string) {
 			third = 12
 		}
 		name = fmt.Sprintf("bignodes/%dx%dx%d", f, sd, third)
-		fb, sb, tb := r.Perm(256)[:f], r.Perm(256)[:sd], r.Perm(256)[:third]
+		fb, tb := r.Perm(256)[:f], r.Perm(256)[:third]
 		for _, a := range fb {
+			// every second-level node gets its OWN label set (a cache that mixes
+			// up two nodes is only visible if their label lists differ)
+			sb := r.Perm(256)[:sd+r.Intn(6)]
 			for _, b := range sb {
 				for _, t := range tb {
 					k := []byte{byte(a), byte(b)}
